@@ -1,11 +1,19 @@
-"""Ordering / guard rules on CFGs for C13 (aliases, anchors, two-phase construction) and C18 (laziness)."""
+"""Ordering / guard rules on CFGs for C13 (aliases, anchors, two-phase construction) and C18 (laziness).
+
+The rules bind variables by their *role* (parameter position, "the local that receives self.compose_node(...)", "the
+expression used as the key of the self.anchors store") and state CFG facts (a guard edge dominates a use, a store lies
+on every normal path, a node is not on a cycle).  Nothing here compares source text of local names.
+"""
 import ast
 
 from . import astutil as A
+from . import match as M
 from . import rules_registry as RR
-from .cfg import CFG, own_exprs
+from .cfg import CFG, own_exprs, reaching_defs
 from .srcmodel import AnalysisError, ClassInfo, FuncInfo, norm, walk_function
 
+
+# ------------------------------------------------------------------------------------------------ shared helpers
 
 def _nodes_with(cfg, pred):
     out = []
@@ -33,9 +41,253 @@ def _test_edges(cfg, match):
         if n.kind == 'test':
             inner, pos = A.strip_not(n.ast)
             r = match(inner)
+            if r is None:
+                mirrored = mirror(inner)
+                if mirrored is not None:
+                    r = match(mirrored)
             if r is not None:
                 out.append((n, r if pos else (not r)))
     return out
+
+
+_MIRROR = {ast.Lt: ast.Gt, ast.Gt: ast.Lt, ast.LtE: ast.GtE, ast.GtE: ast.LtE, ast.Eq: ast.Eq, ast.NotEq: ast.NotEq}
+
+
+def mirror(test):
+    """`a < b` -> `b > a` (same condition, operands exchanged); None if the test is not a simple comparison."""
+    if isinstance(test, ast.Compare) and len(test.ops) == 1 and type(test.ops[0]) in _MIRROR:
+        return ast.Compare(left=test.comparators[0], ops=[_MIRROR[type(test.ops[0])]()], comparators=[test.left])
+    return None
+
+
+def name_node(ident):
+    return ast.Name(id=ident, ctx=ast.Load())
+
+
+def param_env(f, **roles):
+    """{metavariable: Name of the parameter at the given position}; AnalysisError when the function is too short."""
+    env = {}
+    for meta, idx in roles.items():
+        if idx >= len(f.params):
+            raise AnalysisError('%s: expected at least %d parameters' % (f.qualname, idx + 1))
+        env[meta] = name_node(f.params[idx])
+    return env
+
+
+class Bindings(dict):
+    """metavariable bindings of a successful match (true even when nothing was bound)."""
+
+    def __bool__(self):
+        return True
+
+
+def pmatch(src, node, env=None):
+    """bindings (always true) if the (expression / statement) pattern matches `node` itself, else None."""
+    if node is None:
+        return None
+    e = Bindings(env or {})
+    return e if M.match(M.compile_pattern(src)[1], node, e) else None
+
+
+def same(a, b):
+    """structural equality of two expressions (load/store context ignored)."""
+    return a is not None and b is not None and M._dump_noctx(a) == M._dump_noctx(b)
+
+
+def _pairwise(target, value):
+    """(target, value) pairs of an assignment; `a, b = x, y` is split into its components."""
+    if isinstance(target, (ast.Tuple, ast.List)) and isinstance(value, (ast.Tuple, ast.List)) and len(target.elts) == len(value.elts) \
+            and not any(isinstance(e, ast.Starred) for e in list(target.elts) + list(value.elts)):
+        out = []
+        for t, v in zip(target.elts, value.elts):
+            out.extend(_pairwise(t, v))
+        return out
+    return [(target, value)]
+
+
+def local_defs(fnode):
+    """{local name: [value expr | None]} for every binding of a plain name in the function (None = the value is not a
+    single expression: tuple unpacking, loop target, augmented assignment, with/except target)."""
+    defs = {}
+    for n in walk_function(fnode):
+        if isinstance(n, ast.Assign):
+            for t in n.targets:
+                for tt, vv in _pairwise(t, n.value):
+                    if isinstance(tt, ast.Name):
+                        defs.setdefault(tt.id, []).append(vv)
+                    else:
+                        for x in ast.walk(tt):
+                            if isinstance(x, ast.Name) and isinstance(x.ctx, ast.Store):
+                                defs.setdefault(x.id, []).append(None)
+        elif isinstance(n, ast.AnnAssign) and isinstance(n.target, ast.Name):
+            defs.setdefault(n.target.id, []).append(n.value)
+        elif isinstance(n, ast.AugAssign) and isinstance(n.target, ast.Name):
+            defs.setdefault(n.target.id, []).append(None)
+        elif isinstance(n, (ast.For, ast.AsyncFor, ast.comprehension)):
+            for x in ast.walk(n.target):
+                if isinstance(x, ast.Name):
+                    defs.setdefault(x.id, []).append(None)
+        elif isinstance(n, ast.ExceptHandler) and n.name:
+            defs.setdefault(n.name, []).append(None)
+        elif isinstance(n, ast.withitem) and n.optional_vars is not None:
+            for x in ast.walk(n.optional_vars):
+                if isinstance(x, ast.Name):
+                    defs.setdefault(x.id, []).append(None)
+        elif isinstance(n, ast.NamedExpr) and isinstance(n.target, ast.Name):
+            defs.setdefault(n.target.id, []).append(n.value)
+    return defs
+
+
+def value_sources(fnode, expr, params=(), _defs=None, _seen=None):
+    """the expressions a value may come from, looking through plain local copies (`x = <expr>`): a list of expressions,
+    or None when some binding of a local on the way is not a single expression.  A parameter that is never re-bound
+    stands for itself."""
+    defs = _defs if _defs is not None else local_defs(fnode)
+    seen = _seen if _seen is not None else set()
+    if isinstance(expr, ast.Name):
+        if expr.id in seen:
+            return []
+        ds = defs.get(expr.id)
+        if not ds:
+            return [expr]
+        seen = seen | {expr.id}
+        out = [expr] if expr.id in params else []
+        for d in ds:
+            if d is None:
+                return None
+            r = value_sources(fnode, d, params, defs, seen)
+            if r is None:
+                return None
+            out.extend(r)
+        return out
+    return [expr]
+
+
+def is_every_source(fnode, expr, pred, params=()):
+    """every expression `expr` may come from (through local copies) satisfies pred; at least one exists."""
+    srcs = value_sources(fnode, expr, params)
+    return bool(srcs) and all(pred(s) for s in srcs)
+
+
+class Flow:
+    """flow-sensitive look-through of local copies on a CFG: where may the value of an expression *at a CFG node* come
+    from?  (reaching definitions; a definition that is not a plain `name = <expr>` makes the answer unknown)"""
+
+    def __init__(self, cfg, params=()):
+        self.cfg = cfg
+        self.params = set(params)
+        self._rd = {}
+
+    def defs_at(self, at, var):
+        if var not in self._rd:
+            self._rd[var] = reaching_defs(self.cfg, var)
+        return self._rd[var][at]
+
+    def sources(self, at, expr, _seen=None):
+        """[(expr, cfg node where it is evaluated)] or None when unknown."""
+        if not isinstance(expr, ast.Name):
+            return [(expr, at)]
+        seen = _seen or set()
+        ds = self.defs_at(at, expr.id)
+        if not ds:
+            return [(expr, at)]           # a parameter / global / never assigned on a path to `at`
+        out = []
+        if expr.id in self.params and at in self.cfg.reach([self.cfg.entry], blocked=[d for d in ds if d is not at]):
+            out.append((expr, at))        # the caller's value reaches `at` on a path without re-binding
+        for d in ds:
+            if (d, expr.id) in seen:
+                continue
+            a = d.ast
+            if not (d.kind == 'stmt' and isinstance(a, ast.Assign)):
+                return None
+            vals = [vv for t in a.targets for (tt, vv) in _pairwise(t, a.value) if isinstance(tt, ast.Name) and tt.id == expr.id]
+            if len(vals) != 1:
+                return None
+            r = self.sources(d, vals[0], seen | {(d, expr.id)})
+            if r is None:
+                return None
+            out.extend(r)
+        return out
+
+    def every(self, at, expr, pred):
+        """every possible source of expr at `at` satisfies pred(source expr, node of evaluation); at least one exists."""
+        s = self.sources(at, expr)
+        return bool(s) and all(pred(e, n) for (e, n) in s)
+
+
+def reach_under(cfg, atom, starts, blocked=(), follow_exc=True):
+    """nodes reachable from `starts` when every atomic test decided by atom(test expr) -> True/False/None follows only the
+    decided edge; nodes in `blocked` are not entered."""
+    blocked = set(blocked)
+    seen = set()
+    stack = [s for s in starts if s not in blocked]
+    while stack:
+        n = stack.pop()
+        if n in seen:
+            continue
+        seen.add(n)
+        v = None
+        if n.kind == 'test' and n.ast is not None:
+            v = A.eval3(n.ast, atom)
+        for (m, lab) in cfg.succ[n]:
+            if m in blocked:
+                continue
+            if lab == 'exc' and not follow_exc:
+                continue
+            if v is not None and lab in (True, False) and lab != v:
+                continue
+            stack.append(m)
+    return seen
+
+
+def on_cycle(cfg, n):
+    """can control return to CFG node n after leaving it (n is executed more than once per call)?"""
+    return n in cfg.reach([m for (m, lab) in cfg.succ[n]])
+
+
+def raise_class_ok(repo, f, rnode, errcls):
+    """the `raise` at CFG node rnode raises (an instance of) a subclass of errcls."""
+    a = rnode.ast
+    if not isinstance(a, ast.Raise) or a.exc is None:
+        return False
+    t = a.exc.func if isinstance(a.exc, ast.Call) else a.exc
+    ref = repo.resolve_expr(f.module, t)
+    return ref is not None and ref.kind == 'class' and ref.obj.is_subclass_of(errcls)
+
+
+def only_raises(cfg, starts, atom=None):
+    """(True, raise nodes) if no normal exit and no return is reachable from `starts` (under the decided tests)."""
+    r = reach_under(cfg, atom or (lambda t: None), starts)
+    if any(x in r for x in cfg.normal_exits()) or any(x.kind == 'return' for x in r):
+        return False, []
+    return True, [x for x in r if x.kind == 'raise' and isinstance(x.ast, ast.Raise)]
+
+
+def none_test_edges(cfg, exprs):
+    """edges on which one of `exprs` is known to be None (`x is None` true / `x is not None` false)."""
+    def m(inner):
+        e = pmatch('__x is None', inner)
+        if e and any(same(e['__x'], k) for k in exprs):
+            return True
+        e = pmatch('__x is not None', inner)
+        if e and any(same(e['__x'], k) for k in exprs):
+            return False
+        return None
+    return _test_edges(cfg, m)
+
+
+def call_arg(call, pos, kw=None):
+    """positional argument `pos` or keyword `kw` of a call, or None."""
+    if len(call.args) > pos and not any(isinstance(a, ast.Starred) for a in call.args[:pos + 1]):
+        return call.args[pos]
+    for k in call.keywords:
+        if kw is not None and k.arg == kw:
+            return k.value
+    return None
+
+
+def self_attr(attr):
+    return lambda x: isinstance(x, ast.Attribute) and x.attr == attr and isinstance(x.value, ast.Name) and x.value.id == 'self'
 
 
 # ------------------------------------------------------------------------------------------------ C13
@@ -50,6 +302,7 @@ def r_alias_guard(ctx, repo):
     rule = ctx.rule('R-ALIAS-GUARD', 'in compose_node the alias read self.anchors[anchor] is dominated by `anchor not in self.anchors '
                                      '-> raise ComposerError`, and node construction by `anchor in self.anchors -> raise ComposerError`')
     cerr = repo.cls('composer.ComposerError')
+    is_anchors = self_attr('anchors')
     for kq, cn, sc, sq, mp, doc in COMPOSERS:
         K = repo.cls(kq)
         f = K.methods.get(cn)
@@ -57,72 +310,81 @@ def r_alias_guard(ctx, repo):
             raise AnalysisError('%s.%s has vanished' % (kq, cn))
         cfg = CFG(f.node)
 
-        def member(inner):
-            if isinstance(inner, ast.Compare) and len(inner.ops) == 1 and norm(inner.comparators[0]) == 'self.anchors' \
-                    and isinstance(inner.left, ast.Name):
+        tests = []                                               # (test node, key expr, label on which `key in self.anchors`)
+        for n in cfg.nodes:
+            if n.kind != 'test':
+                continue
+            inner, pos = A.strip_not(n.ast)
+            if isinstance(inner, ast.Compare) and len(inner.ops) == 1 and is_anchors(inner.comparators[0]):
                 if isinstance(inner.ops[0], ast.In):
-                    return True
-                if isinstance(inner.ops[0], ast.NotIn):
-                    return False
-            return None
-        in_edges = _test_edges(cfg, member)                     # edges on which `anchor in self.anchors`
-        notin_edges = [(n, not lab) for (n, lab) in in_edges]
-        # (1) alias path: every load self.anchors[x] that is *returned* is guarded by x in self.anchors
-        reads = [n for n in cfg.nodes if n.kind == 'return' and n.ast.value is not None
-                 and isinstance(n.ast.value, ast.Subscript) and norm(n.ast.value.value) == 'self.anchors']
-        if not reads:
-            raise AnalysisError('%s: no `return self.anchors[...]` alias path found' % f.qualname)
-        for rd in reads:
-            if in_edges and cfg.guarded(rd, edges=in_edges):
-                rule.ok(f.loc(rd.ast), 'alias read guarded by membership test (%s)' % f.name)
+                    tests.append((n, inner.left, pos))
+                elif isinstance(inner.ops[0], ast.NotIn):
+                    tests.append((n, inner.left, not pos))
+
+        def in_edges(key):
+            return [(n, lab) for (n, k, lab) in tests if same(k, key)]
+
+        # (1) every load self.anchors[x] (the alias read, the "first occurrence" of the error message) happens only when
+        #     x is known to be a defined anchor
+        loads = []
+        for n in cfg.nodes:
+            if n.ast is None:
+                continue
+            for sub in own_exprs(n):
+                if isinstance(sub, ast.Subscript) and isinstance(sub.ctx, ast.Load) and is_anchors(sub.value):
+                    loads.append((n, sub))
+        defs = local_defs(f.node)
+
+        def is_alias_value(e):
+            if isinstance(e, ast.Subscript) and is_anchors(e.value):
+                return True
+            if isinstance(e, ast.Name) and defs.get(e.id):
+                return all(d is not None and isinstance(d, ast.Subscript) and is_anchors(d.value) for d in defs[e.id])
+            return False
+        alias_returns = [n for n in cfg.nodes if n.kind == 'return' and n.ast.value is not None and is_alias_value(n.ast.value)]
+        if not alias_returns or not loads:
+            raise AnalysisError('%s: no alias path (a returned self.anchors[...]) found' % f.qualname)
+        for n, sub in loads:
+            e = in_edges(sub.slice)
+            if e and cfg.guarded(n, edges=e):
+                rule.ok(f.loc(sub), 'alias read guarded by membership test (%s)' % f.name)
             else:
-                rule.fail('%s|alias-read' % f.qualname, f.module.rel, rd.lineno, f.qualname, norm(rd.ast),
+                rule.fail('%s|alias-read' % f.qualname, f.module.rel, n.lineno, f.qualname, norm(n.ast).split('\n')[0][:80],
                           'an alias is resolved with self.anchors[anchor] without a dominating `anchor not in self.anchors` '
                           'rejection: an undefined alias raises KeyError instead of ComposerError')
         # the rejecting branches raise ComposerError
-        for (tn, lab) in in_edges:
-            # which branch leads straight to a raise?
+        for (tn, key, lab) in tests:
             for branch in (True, False):
                 succ = [m for (m, l) in cfg.succ[tn] if l == branch]
                 if not succ:
                     continue
-                r = cfg.reach(succ, follow_exc=True)
-                only_raise = not any(x in r for x in cfg.normal_exits()) and not any(x.kind == 'return' for x in r)
-                if only_raise:
-                    raises = [x for x in r if x.kind == 'raise' and isinstance(x.ast, ast.Raise)]
+                only, raises = only_raises(cfg, succ)
+                if only:
                     for x in raises:
-                        t = x.ast.exc.func if isinstance(x.ast.exc, ast.Call) else x.ast.exc
-                        ref = repo.resolve_expr(f.module, t)
-                        if ref is not None and ref.kind == 'class' and ref.obj.is_subclass_of(cerr):
+                        if raise_class_ok(repo, f, x, cerr):
                             rule.ok(f.loc(x.ast), 'rejection raises ComposerError')
                         else:
-                            rule.fail('%s|reject-class|%s' % (f.qualname, norm(x.ast)[:40]), f.module.rel, x.lineno, f.qualname,
+                            rule.fail('%s|reject-class|%d' % (f.qualname, x.lineno), f.module.rel, x.lineno, f.qualname,
                                       norm(x.ast)[:80], 'an anchor/alias violation is rejected with something else than ComposerError')
-        # (2) definition path: child composition calls are not reachable when the anchor is already defined
-        comps = _nodes_with(cfg, lambda x: any(_self_call(nm)(x) for nm in (sc, sq, mp)))
-        if len(comps) < 3:
+        # (2) definition path: a kind composer is entered only when its anchor is None or known not to be defined yet
+        comps = []
+        for n in cfg.nodes:
+            if n.ast is None:
+                continue
+            for sub in own_exprs(n):
+                if any(_self_call(nm)(sub) for nm in (sc, sq, mp)):
+                    comps.append((n, sub))
+        if not comps:
             raise AnalysisError('%s: compose_*_node calls not found' % f.qualname)
-        dup_true = in_edges
-        bad = False
-        for c in comps:
-            # reachable through the true edge of `anchor in self.anchors`?  (that edge must lead only to raise)
-            for (tn, lab) in dup_true:
-                if cfg.guarded(c, edges=in_edges) and not reads_only_region(cfg, tn, lab, c):
-                    bad = True
-        # there must be a duplicate test at all: a membership test whose `in` edge cannot reach the compose calls
-        dup_tests = [(tn, lab) for (tn, lab) in in_edges
-                     if not any(c in cfg.reach([m for (m, l) in cfg.succ[tn] if l == lab]) for c in comps)]
-        none_edges = _test_edges(cfg, lambda inner: (
-            False if (isinstance(inner, ast.Compare) and len(inner.ops) == 1 and isinstance(inner.ops[0], ast.IsNot)
-                      and isinstance(inner.comparators[0], ast.Constant) and inner.comparators[0].value is None
-                      and isinstance(inner.left, ast.Name) and inner.left.id == 'anchor') else
-            (True if (isinstance(inner, ast.Compare) and len(inner.ops) == 1 and isinstance(inner.ops[0], ast.Is)
-                      and isinstance(inner.comparators[0], ast.Constant) and inner.comparators[0].value is None
-                      and isinstance(inner.left, ast.Name) and inner.left.id == 'anchor') else None)))
-        ok = bool(dup_tests)
-        for c in comps:
-            # every path to the composition passes the duplicate test (on its not-in edge) or the `anchor is None` edge
-            if not cfg.guarded(c, edges=[(tn, not lab) for (tn, lab) in dup_tests] + none_edges):
+        ok = True
+        for c, call in comps:
+            key = call_arg(call, 0, 'anchor')
+            if key is None:
+                raise AnalysisError('%s: %s is called without an anchor argument' % (f.qualname, norm(call.func)))
+            # duplicate tests: membership tests of this anchor whose `in` edge cannot reach the composition
+            dup = [(tn, lab) for (tn, lab) in in_edges(key)
+                   if c not in cfg.reach([m for (m, l) in cfg.succ[tn] if l == lab])]
+            if not dup or not cfg.guarded(c, edges=[(tn, not lab) for (tn, lab) in dup] + none_test_edges(cfg, [key])):
                 ok = False
         if ok:
             rule.ok(f.loc(), '%s: duplicate anchors rejected before the node is built' % f.name)
@@ -133,13 +395,10 @@ def r_alias_guard(ctx, repo):
     return rule
 
 
-def reads_only_region(cfg, tn, lab, c):
-    return True
-
-
 def r_anchor_before_children(ctx, repo):
     rule = ctx.rule('R-ANCHOR-BEFORE-CHILDREN', 'self.anchors[anchor] = node is executed before any child of a collection is composed '
                                                 '(and before a scalar node is returned)')
+    is_anchors = self_attr('anchors')
     for kq, cn, sc, sq, mp, doc in COMPOSERS:
         K = repo.cls(kq)
         for fname, is_coll in ((sc, False), (sq, True), (mp, True)):
@@ -147,11 +406,15 @@ def r_anchor_before_children(ctx, repo):
             if f is None:
                 raise AnalysisError('%s.%s has vanished' % (kq, fname))
             cfg = CFG(f.node)
-            stores = [n for n in cfg.nodes if n.kind == 'stmt' and isinstance(n.ast, ast.Assign)
-                      and any(isinstance(t, ast.Subscript) and norm(t.value) == 'self.anchors' for t in n.ast.targets)]
-            none_edges = _test_edges(cfg, lambda inner: (
-                False if (isinstance(inner, ast.Compare) and len(inner.ops) == 1 and isinstance(inner.ops[0], ast.IsNot)
-                          and isinstance(inner.comparators[0], ast.Constant) and inner.comparators[0].value is None) else None))
+            stores, keys = [], []
+            for n in cfg.nodes:
+                if n.kind == 'stmt' and isinstance(n.ast, ast.Assign):
+                    for t in n.ast.targets:
+                        if isinstance(t, ast.Subscript) and is_anchors(t.value):
+                            stores.append(n)
+                            keys.append(t.slice)
+            # "no anchor" edges: the expression used as the key of the store is None
+            none_edges = none_test_edges(cfg, keys)
             if is_coll:
                 targets = _nodes_with(cfg, _self_call(cn))
                 what = 'child composition'
@@ -172,12 +435,27 @@ def r_anchor_before_children(ctx, repo):
     return rule
 
 
+def _mutates_self(n):
+    """does CFG node n change the state of the object (assignment / deletion / mutating call rooted at self)?"""
+    a = n.ast
+    if n.kind != 'stmt' or a is None:
+        return False
+    for m in A.find_mutations([x for x in ast.walk(a)]):
+        root = m.root
+        while isinstance(root, (ast.Attribute, ast.Subscript)):
+            root = root.value
+        if isinstance(root, ast.Name) and root.id == 'self':
+            return True
+    return False
+
+
 def r_construct_cache(ctx, repo):
     rule = ctx.rule('R-CONSTRUCT-CACHE', 'construct_object: cache test first; recursion test and mark dominate the dispatch; the cache '
                                          'store post-dominates it; the recursion mark is released only after the store; generators are '
                                          'resumed before the store only in deep mode')
     f = repo.func('constructor.BaseConstructor.construct_object')
     cfg = CFG(f.node)
+    env = param_env(f, _N_self=0, _N_node=1)
     p1 = f.params[1]
 
     def fail(key, node, why):
@@ -190,19 +468,37 @@ def r_construct_cache(ctx, repo):
                            and x.args and isinstance(x.args[0], ast.Name) and x.args[0].id == f.params[0])
     if len(dispatch) < 1:
         raise AnalysisError('construct_object: dispatch call not found')
-    # (a) cache test is the first statement and returns the cached object
-    first = f.node.body[0]
-    if isinstance(first, ast.Expr) and isinstance(first.value, ast.Constant):
-        first = f.node.body[1]
-    ok = isinstance(first, ast.If) and norm(first.test) == '%s in self.constructed_objects' % p1 and first.body \
-        and isinstance(first.body[0], ast.Return) and norm(first.body[0].value) == 'self.constructed_objects[%s]' % p1
+    # (a) the cache is consulted first: `node in self.constructed_objects` leads to `return self.constructed_objects[node]`,
+    #     nothing on the way to that return changes the constructor's state, and the dispatch lies behind the false edge
+    cache_edges = _test_edges(cfg, lambda inner: (True if pmatch('_N_node in self.constructed_objects', inner, env) else
+                                                  (False if pmatch('_N_node not in self.constructed_objects', inner, env) else None)))
+    cached_returns = [n for n in cfg.nodes if n.kind == 'return' and n.ast.value is not None and is_every_source(
+        f.node, n.ast.value, lambda e: pmatch('self.constructed_objects[_N_node]', e, env) is not None)]
+    ok = bool(cache_edges) and bool(cached_returns)
+    first = cache_edges[0][0].stmt if cache_edges else f.node.body[0]
+    if ok:
+        for (tn, lab) in cache_edges:
+            r = cfg.reach([m for (m, l) in cfg.succ[tn] if l == lab], follow_exc=False)
+            if not any(x in r for x in cached_returns) or any(x in r for x in dispatch) or cfg.exit_fall in r:
+                ok = False
+        for rn in cached_returns:
+            if not cfg.guarded(rn, edges=cache_edges):
+                ok = False
+        before = cfg.reach([cfg.entry], blocked=cached_returns)
+        for n in before:
+            if _mutates_self(n) and any(rn in cfg.reach([m for (m, l) in cfg.succ[n]]) for rn in cached_returns):
+                ok = False
+                first = n.ast
+        if not all(cfg.guarded(d, edges=[(tn, not lab) for (tn, lab) in cache_edges]) for d in dispatch):
+            ok = False
     if ok:
         rule.ok(f.loc(first), 'cache consulted first: one object per node')
     else:
         fail('cache-test', first, 'construct_object does not start by returning the cached object for a node that was already '
                                   'constructed: an alias yields a second object instead of the same one')
     # (b) recursion test + mark dominate the dispatch
-    rec_edges = _test_edges(cfg, lambda inner: (False if norm(inner) == '%s in self.recursive_objects' % p1 else None))
+    rec_edges = _test_edges(cfg, lambda inner: (False if pmatch('_N_node in self.recursive_objects', inner, env) else
+                                                (True if pmatch('_N_node not in self.recursive_objects', inner, env) else None)))
     rec_raise_ok = False
     cerr = repo.cls('constructor.ConstructorError')
     for (tn, lab) in rec_edges:
@@ -210,13 +506,10 @@ def r_construct_cache(ctx, repo):
         r = cfg.reach(succ)
         if not any(x in r for x in cfg.normal_exits()):
             for x in r:
-                if x.kind == 'raise' and isinstance(x.ast, ast.Raise) and x.ast.exc is not None:
-                    t = x.ast.exc.func if isinstance(x.ast.exc, ast.Call) else x.ast.exc
-                    ref = repo.resolve_expr(f.module, t)
-                    if ref is not None and ref.kind == 'class' and ref.obj.is_subclass_of(cerr):
-                        rec_raise_ok = True
+                if x.kind == 'raise' and raise_class_ok(repo, f, x, cerr):
+                    rec_raise_ok = True
     marks = [n for n in cfg.nodes if n.kind == 'stmt' and isinstance(n.ast, ast.Assign)
-             and any(norm(t) == 'self.recursive_objects[%s]' % p1 for t in n.ast.targets)]
+             and any(pmatch('self.recursive_objects[_N_node]', t, env) for t in n.ast.targets)]
     for d in dispatch:
         if rec_edges and rec_raise_ok and cfg.guarded(d, edges=rec_edges) and marks and cfg.guarded(d, nodes=marks):
             rule.ok(f.loc(d.ast), 'dispatch under recursion test + mark')
@@ -226,9 +519,11 @@ def r_construct_cache(ctx, repo):
                  'test and mark: a node that is its own key/argument recurses without bound instead of being rejected')
     # (c) cache store post-dominates the dispatch
     stores = [n for n in cfg.nodes if n.kind == 'stmt' and isinstance(n.ast, ast.Assign)
-              and any(norm(t) == 'self.constructed_objects[%s]' % p1 for t in n.ast.targets)]
+              and any(pmatch('self.constructed_objects[_N_node]', t, env) for t in n.ast.targets)]
     unmarks = [n for n in cfg.nodes if n.kind == 'stmt' and isinstance(n.ast, ast.Delete)
-               and any(norm(t) == 'self.recursive_objects[%s]' % p1 for t in n.ast.targets)]
+               and any(pmatch('self.recursive_objects[_N_node]', t, env) for t in n.ast.targets)]
+    unmarks += _nodes_with(cfg, lambda x: pmatch('self.recursive_objects.pop(_N_node, ...)', x, env) is not None
+                           or pmatch('self.recursive_objects.pop(_N_node)', x, env) is not None)
     for d in dispatch:
         starts = [m for (m, lab) in cfg.succ[d] if lab != 'exc']
         r = cfg.reach(starts, blocked=stores, follow_exc=False)
@@ -250,17 +545,19 @@ def r_construct_cache(ctx, repo):
                      'released before the object is cached' if early else 'not released on every normal path',
                      'while a deep (eager) constructor is still draining, a self-reference is no longer recognised and '
                      'recurses without bound' if early else 'later documents see a stale mark'))
-    # (e) generator protocol: resumed before the store only under deep_construct, otherwise queued
-    drains = [n for n in cfg.nodes if n.kind == 'for' and isinstance(n.ast, ast.Name)]
-    deep_edges = _test_edges(cfg, lambda inner: (True if norm(inner) == 'self.deep_construct' else None))
-    queued = _nodes_with(cfg, lambda x: isinstance(x, ast.Call) and norm(x.func) == 'self.state_generators.append')
-    gen_ok = bool(queued)
+    # (e) generator protocol: the generator (the value handed to next()) is resumed before the store only under
+    #     deep_construct, otherwise queued
+    firsts = [x for n in _nodes_with(cfg, lambda x: isinstance(x, ast.Call) and norm(x.func) == 'next' and x.args) for x in own_exprs(n)
+              if isinstance(x, ast.Call) and norm(x.func) == 'next' and x.args]
+    gens = [x.args[0] for x in firsts]
+    drains = [n for n in cfg.nodes if n.kind == 'for' and any(same(n.ast, g) for g in gens)]
+    deep_edges = _test_edges(cfg, lambda inner: (True if pmatch('self.deep_construct', inner) else None))
+    queued = _nodes_with(cfg, lambda x: isinstance(x, ast.Call) and pmatch('self.state_generators.append', x.func) is not None
+                         and x.args and any(same(x.args[0], g) for g in gens))
+    gen_ok = bool(queued) and bool(firsts)
     for dnode in drains:
         if not (deep_edges and cfg.guarded(dnode, edges=deep_edges)):
             gen_ok = False
-    firsts = _nodes_with(cfg, lambda x: isinstance(x, ast.Call) and norm(x.func) == 'next')
-    if not firsts:
-        gen_ok = False
     if gen_ok:
         rule.ok(f.loc(), 'two-phase protocol: next() once, drained only in deep mode, else queued')
     else:
@@ -270,20 +567,49 @@ def r_construct_cache(ctx, repo):
     return rule
 
 
+def _queue_empty_edges(cfg, is_queue):
+    """edges on which the queue expression is known to be empty (`while q` false, `len(q) > 0` false, `len(q) == 0` true)."""
+    def m(inner):
+        if is_queue(inner):
+            return False
+        for src, lab in (('len(__q) > 0', False), ('len(__q) != 0', False), ('len(__q) >= 1', False), ('len(__q)', False),
+                         ('len(__q) == 0', True), ('len(__q) < 1', True), ('__q != []', False), ('__q == []', True)):
+            e = pmatch(src, inner)
+            if e and is_queue(e['__q']):
+                return lab
+        return None
+    return _test_edges(cfg, m)
+
+
 def r_generators_drained(ctx, repo):
     rule = ctx.rule('R-GENERATORS-DRAINED', 'construct_document drains state_generators (loop without break) before it resets the caches')
     f = repo.func('constructor.BaseConstructor.construct_document')
     cfg = CFG(f.node)
-    loops = [n for n in cfg.nodes if n.kind == 'test' and isinstance(n.stmt, ast.While) and norm(n.ast) == 'self.state_generators'
-             and not any(isinstance(x, ast.Break) for x in ast.walk(n.stmt))]
+    is_queue = self_attr('state_generators')
+    empty_edges = [(n, lab) for (n, lab) in _queue_empty_edges(cfg, is_queue) if isinstance(n.stmt, ast.While)]
     resets = [n for n in cfg.nodes if n.kind == 'stmt' and isinstance(n.ast, ast.Assign)
-              and any(norm(t) in ('self.constructed_objects', 'self.recursive_objects') for t in n.ast.targets)]
+              and any(self_attr('constructed_objects')(t) or self_attr('recursive_objects')(t) for t in n.ast.targets)]
     rets = [n for n in cfg.nodes if n.kind == 'return']
     if not resets or not rets:
         raise AnalysisError('construct_document: resets/return not found')
-    ok = bool(loops) and all(cfg.guarded(r, edges=[(l, False) for l in loops]) for r in resets + rets)
-    # the loop body resumes every queued generator
-    body_ok = bool(loops) and any(isinstance(x, ast.For) for x in ast.walk(loops[0].stmt))
+    # the caches are reset / the document is returned only through an edge on which the queue is empty
+    ok = bool(empty_edges) and all(cfg.guarded(r, edges=empty_edges) for r in resets + rets)
+    # the loop body resumes every queued generator: a loop over the queue (or the local that took it over) whose body runs
+    # each generator to exhaustion (a loop over the element)
+    defs = local_defs(f.node)
+    body_ok = False
+    for (tn, lab) in empty_edges:
+        cyc = cfg.reach([m for (m, l) in cfg.succ[tn] if l != lab])
+        if tn not in cyc:
+            continue
+        for outer in cyc:
+            if outer.kind != 'for' or not is_every_source(f.node, outer.ast, is_queue):
+                continue
+            tgt = outer.stmt.target
+            inner = [n for n in cyc if n.kind == 'for' and n is not outer and same(n.ast, tgt)
+                     and n in cfg.reach([m for (m, l) in cfg.succ[outer] if l is True])]
+            if inner:
+                body_ok = True
     if ok and body_ok:
         rule.ok(f.loc(), 'pending generators run to completion before the document is returned')
     else:
@@ -294,6 +620,17 @@ def r_generators_drained(ctx, repo):
 
 
 CHILD_CALLS = ('construct_object', 'construct_sequence', 'construct_mapping', 'construct_pairs')
+KIND_CONSTRUCTORS = ('construct_sequence', 'construct_mapping', 'construct_pairs')
+
+
+def _deep_arg(call):
+    """the expression passed as `deep` to a child constructor call (second positional or keyword), or None."""
+    for k in call.keywords:
+        if k.arg == 'deep':
+            return k.value
+    if len(call.args) >= 2:
+        return call.args[1]
+    return None
 
 
 def r_two_phase(ctx, repo):
@@ -332,10 +669,8 @@ def r_two_phase(ctx, repo):
                     else:
                         rule.ok(f.loc(), '%s yields before constructing children' % f.name)
                     if f in safe_funcs:
-                        deep = [c for c in calls if any(k.arg == 'deep' and not (isinstance(k.value, ast.Constant)
-                                                                                 and k.value.value is False) for k in c.keywords)
-                                or (c.func.attr != 'construct_object' and len(c.args) >= 2) or
-                                (c.func.attr == 'construct_object' and len(c.args) >= 2)]
+                        deep = [c for c in calls if (_deep_arg(c) is not None and not (
+                            isinstance(_deep_arg(c), ast.Constant) and _deep_arg(c).value is False))]
                         if deep:
                             rule.fail('%s|deep' % f.qualname, f.module.rel, deep[0].lineno, f.qualname, norm(deep[0])[:80],
                                       '%s constructs its children in deep mode: a self-reference nested below this container '
@@ -344,8 +679,7 @@ def r_two_phase(ctx, repo):
                             rule.ok(f.loc(), '%s constructs children lazily (no deep=True)' % f.name)
                 else:
                     # non-generator: either everything is constructed eagerly (deep=True) or the result is an immutable tuple
-                    all_deep = all(any(k.arg == 'deep' and isinstance(k.value, ast.Constant) and k.value.value is True
-                                       for k in c.keywords) for c in calls)
+                    all_deep = all(isinstance(_deep_arg(c), ast.Constant) and _deep_arg(c).value is True for c in calls)
                     rets = [r for r in walk_function(f.node) if isinstance(r, ast.Return) and r.value is not None]
                     tuple_only = bool(rets) and all(isinstance(r.value, ast.Call) and norm(r.value.func) == 'tuple' for r in rets)
                     delegating = bool(rets) and all(isinstance(r.value, ast.Call) and isinstance(r.value.func, ast.Attribute)
@@ -360,7 +694,33 @@ def r_two_phase(ctx, repo):
                                   '%s builds a container from child nodes but is not a two-phase (generator) constructor and does '
                                   'not construct its children eagerly: recursive documents raise instead of being built, or '
                                   'children are still unfilled when they are used' % f.qualname)
-    rule.require_min(8, 'container constructors')
+    # laziness of the table constructors rests on the kind constructors handing their own `deep` flag down unchanged:
+    # a child is constructed in deep mode only when the caller asked for it
+    B = repo.cls('constructor.BaseConstructor')
+    for kname in KIND_CONSTRUCTORS:
+        g = B.methods.get(kname)
+        if g is None:
+            raise AnalysisError('BaseConstructor.%s has vanished' % kname)
+        if len(g.params) < 3:
+            raise AnalysisError('%s: expected (self, node, deep)' % g.qualname)
+        own_deep = g.params[2]
+        kids = [c for c in A.func_calls(g.node) if isinstance(c.func, ast.Attribute) and c.func.attr in CHILD_CALLS
+                and isinstance(c.func.value, ast.Name) and c.func.value.id == g.params[0]]
+        if not kids:
+            raise AnalysisError('%s constructs no children' % g.qualname)
+        forced = [c for c in kids if not (isinstance(_deep_arg(c), ast.Name) and _deep_arg(c).id == own_deep)]
+        rebound = own_deep in local_defs(g.node)
+        if forced or rebound:
+            c = forced[0] if forced else g.node
+            rule.fail('%s|deep-passthrough' % g.qualname, g.module.rel, c.lineno, g.qualname,
+                      norm(c)[:80] if forced else 'deep', '%s does not hand its own `deep` flag to the construction of its children: children '
+                      'are built in deep mode (or lazily) regardless of what the caller asked for, so a two-phase table constructor '
+                      'above it no longer builds nested self-references (or gets unfilled children)' % g.qualname)
+        else:
+            rule.ok(g.loc(), '%s passes its deep flag through to %d child constructions' % (g.name, len(kids)))
+    if n < 6:
+        raise AnalysisError('R-TWO-PHASE evaluated %d container constructors, fewer than the 6 confirmed by reading; the rule no '
+                            'longer matches the code it was written for' % n)
     return rule
 
 
@@ -383,29 +743,37 @@ def r_api_generators(ctx, repo):
         problems = []
         if not f.is_generator:
             problems.append('is not a generator function')
+        cfg = CFG(f.node)
         yields = [n for n in walk_function(f.node) if isinstance(n, (ast.Yield, ast.YieldFrom))]
         for y in yields:
             if isinstance(y, ast.YieldFrom):
                 problems.append('uses yield from')
                 continue
             v = y.value
-            if not (isinstance(v, ast.Call) and isinstance(v.func, ast.Attribute) and v.func.attr == get):
+            if not (isinstance(v, ast.Call) and isinstance(v.func, ast.Attribute) and v.func.attr == get and not v.args):
                 problems.append('yields %s instead of loader.%s()' % (norm(v)[:30] if v is not None else None, get))
-            # enclosing while loader.check_X()
+                loader = None
+            else:
+                loader = v.func.value
+            # every item is produced on demand: the yield is reached only through the true edge of loader.check_X()
+            chk_edges = _test_edges(cfg, lambda inner: (True if (isinstance(inner, ast.Call) and isinstance(inner.func, ast.Attribute)
+                                                                 and inner.func.attr == chk and not inner.args
+                                                                 and (loader is None or same(inner.func.value, loader))) else None))
+            ynodes = _nodes_with(cfg, lambda x: x is y)
+            if not chk_edges or not all(cfg.guarded(yn, edges=chk_edges) and on_cycle(cfg, yn) for yn in ynodes):
+                problems.append('the yield is not inside `while loader.%s()`' % chk)
+            # abandoning the iterator (GeneratorExit at the yield) releases the loader: lexically inside try/finally dispose
+            in_try = False
             p = y
-            in_while = in_try = False
             while p is not None and p is not f.node:
+                child = p
                 p = getattr(p, '_parent', None)
-                if isinstance(p, ast.While) and isinstance(p.test, ast.Call) and isinstance(p.test.func, ast.Attribute) \
-                        and p.test.func.attr == chk:
-                    in_while = True
-                if isinstance(p, ast.Try) and p.finalbody and any(
-                        isinstance(c.func, ast.Attribute) and c.func.attr == 'dispose' for c in A.calls_in(p.finalbody)):
+                if isinstance(p, ast.Try) and any(child is s for s in p.body) and p.finalbody and any(
+                        isinstance(c.func, ast.Attribute) and c.func.attr == 'dispose' and
+                        (loader is None or same(c.func.value, loader)) for c in A.calls_in(p.finalbody)):
                     in_try = True
                     if p.handlers:
                         problems.append('the try around the yield has except clauses')
-            if not in_while:
-                problems.append('the yield is not inside `while loader.%s()`' % chk)
             if not in_try:
                 problems.append('the yield is not inside try/finally: dispose (abandoning the iterator would not release the loader)')
         for n in walk_function(f.node):
@@ -426,15 +794,30 @@ def r_api_generators(ctx, repo):
         f = init.functions.get(name)
         if f is None:
             raise AnalysisError('yaml.%s has vanished' % name)
-        body = [s for s in f.node.body if not (isinstance(s, ast.Expr) and isinstance(s.value, ast.Constant))]
-        ok = len(body) == 1 and isinstance(body[0], ast.Return) and isinstance(body[0].value, ast.Call) \
-            and norm(body[0].value.func) == target
+        rets = [n for n in walk_function(f.node) if isinstance(n, ast.Return)]
+        ok = bool(rets) and not f.is_generator and all(
+            r.value is not None and is_every_source(f.node, r.value, lambda e: isinstance(e, ast.Call) and norm(e.func) == target)
+            for r in rets) and not any(isinstance(n, (ast.For, ast.While, ast.ListComp, ast.GeneratorExp)) for n in walk_function(f.node))
         if ok:
             rule.ok(f.loc(), 'yaml.%s returns %s(...) unchanged' % (name, target))
         else:
             rule.fail('%s|wrapper' % f.qualname, f.module.rel, f.node.lineno, f.qualname, 'def %s' % name,
                       'yaml.%s no longer hands back the lazy iterator of %s unchanged' % (name, target))
     return rule
+
+
+def _atoms(test):
+    """the atomic conditions of a boolean expression (operands of and / or / not, recursively)."""
+    if isinstance(test, ast.BoolOp):
+        return [a for v in test.values for a in _atoms(v)]
+    if isinstance(test, ast.UnaryOp) and isinstance(test.op, ast.Not):
+        return _atoms(test.operand)
+    return [test]
+
+
+def _is_stream_read(c):
+    return isinstance(c, ast.Call) and isinstance(c.func, ast.Attribute) and c.func.attr == 'read' \
+        and isinstance(c.func.value, ast.Attribute) and c.func.value.attr == 'stream'
 
 
 def r_bounded_read(ctx, repo):
@@ -444,15 +827,25 @@ def r_bounded_read(ctx, repo):
     R = repo.cls('reader.Reader')
     reads = 0
     for f in R.methods.values():
+        fcfg = None
         for c in A.func_calls(f.node):
-            if isinstance(c.func, ast.Attribute) and c.func.attr == 'read' and 'stream' in norm(c.func.value):
+            if _is_stream_read(c):
                 reads += 1
-                if len(c.args) != 1:
+                if fcfg is None:
+                    fcfg = CFG(f.node)
+                # one refill = a bounded number of read() calls: the read is not on a cycle of its function
+                rnodes = _nodes_with(fcfg, lambda x, c=c: x is c)
+                if any(on_cycle(fcfg, rn) for rn in rnodes):
+                    rule.fail('%s|read-loop' % f.qualname, f.module.rel, c.lineno, f.qualname, norm(c),
+                              'the stream is read inside a loop of %s: the amount pulled in by one refill is bounded by the '
+                              'input, not by a constant block size' % f.name)
+                    continue
+                if len(c.args) != 1 or c.keywords:
                     rule.fail('%s|read-unsized' % f.qualname, f.module.rel, c.lineno, f.qualname, norm(c),
                               'the stream is read without a size: the whole input is requested at once')
                     continue
                 a = c.args[0]
-                if isinstance(a, ast.Constant) and isinstance(a.value, int) and a.value > 0:
+                if isinstance(a, ast.Constant) and isinstance(a.value, int) and not isinstance(a.value, bool) and a.value > 0:
                     rule.ok(f.loc(c), 'read(%d)' % a.value)
                     continue
                 if isinstance(a, ast.Name) and a.id in f.params:
@@ -463,9 +856,7 @@ def r_bounded_read(ctx, repo):
                     if okp:
                         consts.add(d.value)
                     # the parameter is not modified inside the function
-                    if any(isinstance(n, (ast.Assign, ast.AugAssign)) and any(
-                            isinstance(t, ast.Name) and t.id == a.id
-                            for t in (n.targets if isinstance(n, ast.Assign) else [n.target])) for n in walk_function(f.node)):
+                    if a.id in local_defs(f.node):
                         okp = False
                     for g in repo.all_functions():
                         for cc in A.func_calls(g.node):
@@ -477,7 +868,7 @@ def r_bounded_read(ctx, repo):
                                     else:
                                         okp = False
                     if okp:
-                        rule.ok(f.loc(c), 'read(%s) with %s in %s at every call site' % (a.id, a.id, sorted(consts)))
+                        rule.ok(f.loc(c), 'read(<block size parameter>) with a constant in %s at every call site' % sorted(consts))
                     else:
                         rule.fail('%s|read-size' % f.qualname, f.module.rel, c.lineno, f.qualname, norm(c),
                                   'the size passed to stream.read() is not a constant at every call site: the amount requested '
@@ -487,47 +878,134 @@ def r_bounded_read(ctx, repo):
                           'the size passed to stream.read() is computed, not a constant block size')
     if reads < 1:
         raise AnalysisError('no stream.read() call found in the reader')
-    # update_raw is called only from update (inside while len(self.buffer) < length) and determine_encoding (inside its loop)
+    # update_raw is called only on demand: in update() while the buffer is shorter than the requested length, in
+    # determine_encoding while fewer than a constant number of raw units are there and the stream has not ended
+    upd = R.methods.get('update')
+    if upd is None:
+        raise AnalysisError('Reader.update has vanished')
+    uenv = param_env(upd, _N_length=1)
+    sites = 0
     for f in R.methods.values():
+        fcfg = None
         for c in A.func_calls(f.node):
-            if isinstance(c.func, ast.Attribute) and c.func.attr == 'update_raw':
-                p = c
-                in_loop = None
-                while p is not None and p is not f.node:
-                    p = getattr(p, '_parent', None)
-                    if isinstance(p, ast.While):
-                        in_loop = p
-                        break
-                t = norm(in_loop.test) if in_loop is not None else ''
-                if f.name == 'update' and 'len(self.buffer) < length' in t:
-                    rule.ok(f.loc(c), 'refill only while the buffer is shorter than requested')
-                elif f.name == 'determine_encoding' and 'len(self.raw_buffer)' in t and 'self.eof' in t:
-                    rule.ok(f.loc(c), 'encoding detection reads only until 2 bytes / eof')
-                else:
-                    rule.fail('%s|update_raw-site' % f.qualname, f.module.rel, c.lineno, f.qualname, norm(c),
-                              'the stream is refilled outside the demand-driven loops (while len(buffer) < length / encoding '
-                              'detection): input is pulled ahead of need')
-    # update(): the amount requested is what the caller asked for (no drain loop `while not self.eof`)
+            if not (_self_call('update_raw')(c)):
+                continue
+            sites += 1
+            if fcfg is None:
+                fcfg = CFG(f.node)
+            cnodes = _nodes_with(fcfg, lambda x, c=c: x is c)
+            eof_edges = _test_edges(fcfg, lambda inner: (False if pmatch('self.eof', inner) else None))
+            if f is upd:
+                need = _test_edges(fcfg, lambda inner: (True if pmatch('len(self.buffer) < _N_length', inner, uenv) else
+                                                        (False if pmatch('len(self.buffer) >= _N_length', inner, uenv) else None)))
+                good = bool(need) and all(fcfg.guarded(cn, edges=need) for cn in cnodes)
+                what = 'refill only while the buffer is shorter than requested'
+            else:
+                def short(inner):
+                    for src, lab in (('len(self.raw_buffer) < __k', True), ('len(self.raw_buffer) >= __k', False),
+                                     ('self.raw_buffer is None', True), ('self.raw_buffer is not None', False)):
+                        e = pmatch(src, inner)
+                        if e is not None and ('__k' not in e or (isinstance(e['__k'], ast.Constant) and isinstance(e['__k'].value, int))):
+                            return lab
+                    return None
+                need = _test_edges(fcfg, short)
+                good = bool(need) and bool(eof_edges) and all(fcfg.guarded(cn, edges=need) and fcfg.guarded(cn, edges=eof_edges)
+                                                               for cn in cnodes)
+                what = 'encoding detection reads only until a constant number of units / eof'
+            if good:
+                rule.ok(f.loc(c), what)
+            else:
+                rule.fail('%s|update_raw-site' % f.qualname, f.module.rel, c.lineno, f.qualname, norm(c),
+                          'the stream is refilled outside the demand-driven loops (while len(buffer) < length / encoding '
+                          'detection): input is pulled ahead of need')
+    if sites < 1:
+        raise AnalysisError('no update_raw() call found in the reader')
+    # no drain loop: a loop whose only exit condition is the end of the stream
     for f in R.methods.values():
         for n in walk_function(f.node):
-            if isinstance(n, ast.While) and f.name != 'determine_encoding':
-                t = norm(n.test)
-                if 'eof' in t and 'len(' not in t:
-                    rule.fail('%s|drain-loop' % f.qualname, f.module.rel, n.lineno, f.qualname, 'while %s' % t,
+            if isinstance(n, ast.While):
+                atoms = _atoms(n.test)
+                has_eof = any(pmatch('self.eof', x) for x in atoms)
+                has_len = any(isinstance(y, ast.Call) and norm(y.func) == 'len' for x in atoms for y in ast.walk(x))
+                if has_eof and not has_len:
+                    rule.fail('%s|drain-loop' % f.qualname, f.module.rel, n.lineno, f.qualname, 'while %s' % norm(n.test),
                               'a loop reads the stream until end of file')
-    # pyx input handler: value = parser.stream.read(size)
+    # pyx input handler: value = parser.stream.read(size) with libyaml's own size argument (parameter 3)
     ih = repo.modules['_yaml'].functions.get('input_handler')
     if ih is None:
         raise AnalysisError('input_handler has vanished from the binding')
-    rd = [c for c in A.func_calls(ih.node) if isinstance(c.func, ast.Attribute) and c.func.attr == 'read']
-    if len(rd) == 1 and len(rd[0].args) == 1 and isinstance(rd[0].args[0], ast.Name) and rd[0].args[0].id == 'size' \
-            and not any(isinstance(n, ast.Assign) and any(isinstance(t, ast.Name) and t.id == 'size' for t in n.targets)
-                        and n.lineno < rd[0].lineno for n in walk_function(ih.node)):
+    if len(ih.params) < 3:
+        raise AnalysisError('input_handler: expected (data, buffer, size, read)')
+    size = ih.params[2]
+    rd = [c for c in A.func_calls(ih.node) if _is_stream_read(c)]
+    ok = False
+    if len(rd) == 1 and len(rd[0].args) == 1 and isinstance(rd[0].args[0], ast.Name) and rd[0].args[0].id == size:
+        icfg = CFG(ih.node)
+        rdefs = reaching_defs(icfg, size)
+        rnodes = _nodes_with(icfg, lambda x: x is rd[0])
+        ok = bool(rnodes) and all(not rdefs[rn] and not on_cycle(icfg, rn) for rn in rnodes)
+    if ok:
         rule.ok(ih.loc(rd[0]), 'C input handler reads exactly the size libyaml asks for')
     else:
         rule.fail('%s|read' % ih.qualname, ih.module.rel, ih.node.lineno, ih.qualname, 'parser.stream.read(...)',
                   'the C input handler does not pass libyaml\'s requested size to stream.read()')
     return rule
+
+
+def _expiry_loops(cfg):
+    """stale-key expiry written out in a function: `for` nodes over the pending simple keys whose body deletes an entry of
+    self.possible_simple_keys when it lies on another line or more than a constant number of characters back.
+    -> [(for node, bound)]"""
+    is_keys = self_attr('possible_simple_keys')
+    out = []
+    for loop in cfg.nodes:
+        if loop.kind != 'for' or not any(is_keys(x) for x in ast.walk(loop.ast)):
+            continue
+        body = cfg.reach([m for (m, l) in cfg.succ[loop] if l is True], blocked=[loop])
+        dels = [n for n in body if n.kind == 'stmt' and isinstance(n.ast, ast.Delete)
+                and any(isinstance(t, ast.Subscript) and is_keys(t.value) for t in n.ast.targets)]
+        dels += [n for n in body if n.ast is not None and n.kind == 'stmt' and any(
+            isinstance(x, ast.Call) and isinstance(x.func, ast.Attribute) and x.func.attr == 'pop' and is_keys(x.func.value)
+            for x in own_exprs(n))]
+        if not dels:
+            continue
+        line_edges, dist_edges, bound = [], [], None
+        for n in body:
+            if n.kind != 'test':
+                continue
+            inner, pos = A.strip_not(n.ast)
+            e = pmatch('__k.line != self.line', inner)
+            if e is not None:
+                line_edges.append((n, pos))
+            e = pmatch('__k.line == self.line', inner)
+            if e is not None:
+                line_edges.append((n, not pos))
+            for src, lab in (('self.index - __k.index > __c', True), ('self.index - __k.index >= __c', True),
+                             ('self.index - __k.index <= __c', False), ('self.index - __k.index < __c', False)):
+                e = pmatch(src, inner)
+                if e is not None and isinstance(e['__c'], ast.Constant) and isinstance(e['__c'].value, int):
+                    dist_edges.append((n, lab if pos else (not lab)))
+                    bound = e['__c'].value
+        if not line_edges or not dist_edges:
+            continue
+        # either condition alone leads to the deletion (or to the "required key" error): from the stale edge, the next
+        # iteration / the loop exit is reached only through the deletion
+        good = True
+        for (tn, lab) in line_edges + dist_edges:
+            r = cfg.reach([m for (m, l) in cfg.succ[tn] if l == lab], blocked=dels, follow_exc=False)
+            if loop in r:
+                good = False
+        if good:
+            out.append((loop, bound))
+    return out
+
+
+def _expiry_sites(cfg):
+    """CFG guards that mean "stale simple-key candidates have been expired": calls of stale_possible_simple_keys() and the
+    exits of written-out expiry loops.  -> (nodes, edges)"""
+    nodes = _nodes_with(cfg, _self_call('stale_possible_simple_keys'))
+    edges = [(loop, False) for (loop, bound) in _expiry_loops(cfg)]
+    return nodes, edges
 
 
 def r_token_demand(ctx, repo):
@@ -539,18 +1017,23 @@ def r_token_demand(ctx, repo):
         f = S.methods.get(name)
         if f is None:
             raise AnalysisError('Scanner.%s has vanished' % name)
-        bad = []
-        found = 0
-        for c in A.func_calls(f.node):
-            if isinstance(c.func, ast.Attribute) and c.func.attr == 'fetch_more_tokens':
-                found += 1
-                p = getattr(A.enclosing_stmt(c), '_parent', None)
-                if not (isinstance(p, ast.While) and norm(p.test) == 'self.need_more_tokens()'):
-                    bad.append(c)
-        for n in walk_function(f.node):
-            if isinstance(n, ast.While) and norm(n.test) != 'self.need_more_tokens()':
-                bad.append(n)
-        if found == 1 and not bad:
+        cfg = CFG(f.node)
+        fetches = _nodes_with(cfg, _self_call('fetch_more_tokens'))
+        need_edges = _test_edges(cfg, lambda inner: (True if pmatch('self.need_more_tokens()', inner) else None))
+        good = bool(fetches) and bool(need_edges)
+        for fn in fetches:
+            # a fetch happens only right after need_more_tokens() said so: every path to it passes the true edge, and
+            # every path from one fetch to the next passes it again
+            if not cfg.guarded(fn, edges=need_edges):
+                good = False
+            r = cfg.reach([m for (m, l) in cfg.succ[fn] if l != 'exc'], blocked_edges=need_edges)
+            if any(x in r for x in fetches):
+                good = False
+        # no other loop pulls tokens
+        for n in cfg.nodes:
+            if n.kind == 'test' and isinstance(n.stmt, ast.While) and not any(n is tn for (tn, lab) in need_edges):
+                good = False
+        if good:
             rule.ok(f.loc(), '%s fetches only while need_more_tokens()' % name)
         else:
             rule.fail('%s|fetch' % f.qualname, f.module.rel, f.node.lineno, f.qualname, 'fetch_more_tokens',
@@ -560,19 +1043,29 @@ def r_token_demand(ctx, repo):
         raise AnalysisError('Scanner.need_more_tokens has vanished')
     cfg = CFG(f.node)
     rets_true = [n for n in cfg.nodes if n.kind == 'return' and isinstance(n.ast.value, ast.Constant) and n.ast.value.value is True]
-    other = [n for n in cfg.nodes if n.kind == 'return' and not isinstance(n.ast.value, ast.Constant)]
+    other = [n for n in cfg.nodes if n.kind == 'return' and n.ast.value is not None and not isinstance(n.ast.value, ast.Constant)]
     ok = bool(rets_true) and not other
-    allowed_tests = ('not self.tokens', 'self.next_possible_simple_key() == self.tokens_taken')
+    # reasons to ask for more: the queue is empty / the next possible simple key is the next token to hand out
+    empty_edges = _queue_empty_edges(cfg, self_attr('tokens'))
+
+    def pending(inner):
+        for src, lab in (('self.next_possible_simple_key() == self.tokens_taken', True),
+                         ('self.next_possible_simple_key() != self.tokens_taken', False)):
+            if pmatch(src, inner) is not None:
+                return lab
+        return None
+    key_edges = _test_edges(cfg, pending)
     for rt in rets_true:
-        par = getattr(rt.ast, '_parent', None)
-        if not (isinstance(par, ast.If) and norm(par.test) in allowed_tests):
+        if not cfg.guarded(rt, edges=empty_edges + key_edges):
             ok = False
-    stale = _nodes_with(cfg, _self_call('stale_possible_simple_keys'))
-    key_tests = [n for n in cfg.nodes if n.kind == 'test' and 'next_possible_simple_key' in norm(n.ast)]
-    if not key_tests or not stale or not all(cfg.guarded(k, nodes=stale) for k in key_tests):
+    stale_nodes, stale_edges = _expiry_sites(cfg)
+    key_tests = [n for n in cfg.nodes if n.ast is not None and any(_self_call('next_possible_simple_key')(x) for x in own_exprs(n))]
+    if not key_tests or not (stale_nodes or stale_edges) or \
+            not all(cfg.guarded(k, nodes=stale_nodes, edges=stale_edges) for k in key_tests):
         ok = False
-    done = [n for n in cfg.nodes if n.kind == 'test' and norm(n.ast) == 'self.done']
-    if not done:
+    # a finished scanner never asks for more
+    done_edges = _test_edges(cfg, lambda inner: (False if pmatch('self.done', inner) else None))
+    if not done_edges or not all(cfg.guarded(rt, edges=done_edges) for rt in rets_true):
         ok = False
     if ok:
         rule.ok(f.loc(), 'need_more_tokens: done -> False; empty queue or pending simple key (after expiry) -> True')
@@ -583,26 +1076,9 @@ def r_token_demand(ctx, repo):
     g = S.methods.get('stale_possible_simple_keys')
     if g is None:
         raise AnalysisError('Scanner.stale_possible_simple_keys has vanished')
-    dels = [n for n in walk_function(g.node) if isinstance(n, ast.Delete)]
-    okg = False
-    bound = None
-    for d in dels:
-        p = d
-        while p is not None and p is not g.node:
-            p = getattr(p, '_parent', None)
-            if isinstance(p, ast.If):
-                t = p.test
-                if isinstance(t, ast.BoolOp) and isinstance(t.op, ast.Or):
-                    has_line = any(isinstance(v, ast.Compare) and 'line' in norm(v) and isinstance(v.ops[0], ast.NotEq) for v in t.values)
-                    for v in t.values:
-                        if isinstance(v, ast.Compare) and len(v.ops) == 1 and isinstance(v.ops[0], (ast.Gt, ast.GtE)) \
-                                and isinstance(v.left, ast.BinOp) and isinstance(v.left.op, ast.Sub) and 'index' in norm(v.left) \
-                                and isinstance(v.comparators[0], ast.Constant) and isinstance(v.comparators[0].value, int):
-                            bound = v.comparators[0].value
-                    if has_line and bound is not None:
-                        okg = True
-                break
-    if okg:
+    loops = _expiry_loops(CFG(g.node))
+    if loops:
+        bound = loops[0][1]
         rule.ok(g.loc(), 'simple-key candidates expire on a new line or after %d characters' % bound)
         ctx.extra['simple_key_window'] = bound
     else:
@@ -611,12 +1087,19 @@ def r_token_demand(ctx, repo):
                   'keeps the scanner fetching tokens without bound')
     # fetch_more_tokens expires stale keys too, before dispatch
     h = S.methods.get('fetch_more_tokens')
-    if h is None or not [c for c in A.func_calls(h.node) if _self_call('stale_possible_simple_keys')(c)]:
-        rule.fail('scanner.Scanner.fetch_more_tokens|stale', S.module.rel, h.node.lineno if h else 0,
+    if h is None:
+        raise AnalysisError('Scanner.fetch_more_tokens has vanished')
+    hcfg = CFG(h.node)
+    hn, he = _expiry_sites(hcfg)
+    fetchers = [n for n in hcfg.nodes if n.ast is not None and any(
+        isinstance(x, ast.Call) and isinstance(x.func, ast.Attribute) and x.func.attr.startswith('fetch_')
+        and isinstance(x.func.value, ast.Name) and x.func.value.id == 'self' for x in own_exprs(n))]
+    if (hn or he) and fetchers and all(hcfg.guarded(x, nodes=hn, edges=he) for x in fetchers):
+        rule.ok(h.loc(), 'fetch_more_tokens expires stale candidates')
+    else:
+        rule.fail('scanner.Scanner.fetch_more_tokens|stale', S.module.rel, h.node.lineno,
                   'scanner.Scanner.fetch_more_tokens', 'stale_possible_simple_keys()',
                   'fetch_more_tokens no longer expires stale simple-key candidates')
-    else:
-        rule.ok(h.loc(), 'fetch_more_tokens expires stale candidates')
     return rule
 
 
@@ -629,21 +1112,15 @@ def r_event_demand(ctx, repo):
         if f is None:
             raise AnalysisError('Parser.%s has vanished' % name)
         cfg = CFG(f.node)
-        steps = _nodes_with(cfg, lambda x: isinstance(x, ast.Call) and norm(x.func) == 'self.state')
-        none_edges = []
-        for n in cfg.nodes:
-            if n.kind == 'test':
-                t = norm(n.ast)
-                if t == 'self.current_event is None':
-                    none_edges.append((n, True))
-                elif t == 'self.current_event is not None':
-                    none_edges.append((n, False))
-        ok = len(steps) == 1 and bool(none_edges)
+        steps = _nodes_with(cfg, lambda x: isinstance(x, ast.Call) and pmatch('self.state', x.func) is not None)
+        none_edges = none_test_edges(cfg, [ast.parse('self.current_event', mode='eval').body])
+        ok = bool(steps) and bool(none_edges)
         for sn in steps:
-            # only when no event is pending, and not inside a cycle (one step per call)
+            # only when no event is pending, and at most one step per call (no path from one step to a step)
             if not cfg.guarded(sn, edges=none_edges):
                 ok = False
-            if sn in cfg.reach([m for (m, lab) in cfg.succ[sn]]):
+            r = cfg.reach([m for (m, lab) in cfg.succ[sn]])
+            if any(x in r for x in steps):
                 ok = False
         if ok:
             rule.ok(f.loc(), '%s: one parser step, only when no event is pending' % name)
@@ -673,10 +1150,28 @@ def r_event_demand(ctx, repo):
     # compose_document consumes exactly one DocumentStart .. DocumentEnd bracket
     C = repo.cls('composer.Composer')
     f = C.methods.get('compose_document')
-    gets = [c for c in A.func_calls(f.node) if _self_call('get_event')(c)]
-    comps = [c for c in A.func_calls(f.node) if _self_call('compose_node')(c)]
-    loops = [n for n in walk_function(f.node) if isinstance(n, (ast.While, ast.For))]
-    if len(gets) == 2 and len(comps) == 1 and not loops:
+    if f is None:
+        raise AnalysisError('Composer.compose_document has vanished')
+    cfg = CFG(f.node)
+    gets = _nodes_with(cfg, _self_call('get_event'))
+    comps = _nodes_with(cfg, _self_call('compose_node'))
+    # on every normal path: one event consumed, then the root node composed, then one event consumed; nothing repeats
+    ok = len(comps) == 1 and not any(on_cycle(cfg, n) for n in gets + comps)
+    if ok:
+        c = comps[0]
+        before = [g for g in gets if cfg.dominates(g, c)]
+        after = [g for g in gets if g in cfg.reach([m for (m, l) in cfg.succ[c] if l != 'exc'], follow_exc=False)]
+        ok = len(before) == 1 and bool(after) and len(before) + len(after) == len(gets)
+        if ok:
+            # exactly one consumed event on each normal path after the root node
+            r = cfg.reach([m for (m, l) in cfg.succ[c] if l != 'exc'], blocked=after, follow_exc=False)
+            if any(x in r for x in cfg.normal_exits()):
+                ok = False
+            for a in after:
+                r = cfg.reach([m for (m, l) in cfg.succ[a] if l != 'exc'], follow_exc=False)
+                if any(x in r for x in after):
+                    ok = False
+    if ok:
         rule.ok(f.loc(), 'compose_document: DocumentStart, one root node, DocumentEnd')
     else:
         rule.fail('%s|bracket' % f.qualname, f.module.rel, f.node.lineno, f.qualname, 'def compose_document',
